@@ -398,6 +398,10 @@ func (sc *c08Scenario) Check(res *simrt.Result) []Violation {
 			if op.Err != nil {
 				if op.Err == fpgo.ErrQueueIsEmpty || op.Err == fpgo.ErrStackIsEmpty {
 					out.empty = true
+					// the wrapper hands the wrapped structure's own report through: a stack says ErrStackIsEmpty, a queue ErrQueueIsEmpty
+					if want := map[bool]error{true: fpgo.ErrStackIsEmpty, false: fpgo.ErrQueueIsEmpty}[op.Name == "Pop"]; op.Err != want {
+						vs = append(vs, Violation{Clause: "unexpected-error", Fingerprint: sc.Kind + "." + op.Name + ":wrong-kind-of-empty-error", Detail: op.String() + fmt.Sprintf(": want %v", want)})
+					}
 				} else {
 					out.err = true
 				}
